@@ -191,8 +191,55 @@ def run_shard(args):
             out["violations"].append({"kind": "corpus:" + detail["kind"], "detail": {k: v for k, v in detail.items() if k != "new"} | {"new": detail.get("new", "")[:3000]}, "witness": {"files": files, "flags": ["create", "fix"], "style": "rec"}, "finding": None})
         elif status == "ok":
             C["reexec_events"] += detail["events"]
+    # ---- real sessions: however the session ends (all tests run, stopped at the first failure, interrupted by
+    # pytest.exit / Ctrl-C), the snapshots of the tests that ran are repaired
+    from .. import session
+
+    nreal = {"quick": 1 if args.shard < len(ENDINGS) else 0, "thorough": 6}[tier]
+    for c in range(nreal):
+        rng = random.Random(f"{args.seed}/{PROP}/session/{args.shard}/{c}")
+        ename, eargs, tail, cache = ENDINGS[(args.shard + c) % len(ENDINGS)]
+        sites = [make_site(rng, i, 2) for i in range(rng.randint(6, 9))]
+        for s in sites:
+            if s["place"] == "module":
+                s["place"] = "loop"  # an empty module-level snapshot makes the disabled import fail by design
+        src, order = program.build(sites, style="assert", tests=3, header="import pytest\nfrom inline_snapshot import snapshot, Is, HasRepr, external, outsource\nfrom vp import *\n")
+        src += tail
+        proj = session.Project({"test_a.py": src})
+        try:
+            r1 = session.run_session(proj, ["--inline-snapshot=create,fix"] + eargs, cache=cache)
+            ran = sorted(t.split("::")[-1] for t in r1.outcomes if t.split("::")[-1].startswith("test_") and not t.endswith(("test_zz_exit", "test_zz_interrupt")))
+            r2 = session.run_session(proj, ["--inline-snapshot=disable", "-k", " or ".join(ran) or "nothing"]) if ran else None
+        finally:
+            proj.close()
+        C["real_sessions"] = C.get("real_sessions", 0) + 1
+        C["real_ending_" + ename] = C.get("real_ending_" + ename, 0) + 1
+        out["signatures"].add(f"real-session/{ename}/exit{r1.exit}")
+        wit = {"files": {"test_a.py": src}, "args": ["--inline-snapshot=create,fix"] + eargs, "then": "--inline-snapshot=disable"}
+        if any(a["kind"] == "sessionfinish_exception" for a in r1.audit):
+            out["violations"].append({"kind": "session-end-raised", "detail": {"ending": ename, "events": [a for a in r1.audit if a["kind"] == "sessionfinish_exception"]}, "witness": wit, "finding": None})
+            continue
+        if not ran:
+            out["inconclusive"].append(f"real session ({ename}) ran no test: exit={r1.exit} {r1.stdout[-300:]}")
+            continue
+        out["evaluations"] += len(ran)
+        C["real_tests_rerun_disabled"] = C.get("real_tests_rerun_disabled", 0) + len(ran)
+        bad = {t: o for t, o in r2.outcomes.items() if o != "passed"}
+        if bad or r2.exit != 0:
+            out["violations"].append({"kind": "reached-snapshot-not-repaired(real session)", "detail": {"ending": ename, "first_exit": r1.exit, "tests_run_in_first_session": ran, "failing_when_disabled": bad, "stdout_tail": r2.stdout[-800:], "file_after_first_session": r1.after.get("test_a.py", b"").decode()[:2500]}, "witness": wit, "finding": None})
     out["signatures"] = sorted(out["signatures"])
     return out
+
+
+# (name, extra pytest arguments, test appended to the file, needs the cache plugin)
+ENDINGS = [
+    ("all-tests-run", [], "", False),
+    ("exitfirst", ["-x"], "", False),
+    ("maxfail", ["--maxfail=2"], "", False),
+    ("stepwise", ["--stepwise"], "", True),
+    ("pytest-exit", [], "\n\ndef test_zz_exit():\n    pytest.exit('enough for today')\n", False),
+    ("keyboard-interrupt", [], "\n\ndef test_zz_interrupt():\n    raise KeyboardInterrupt()\n", False),
+]
 
 
 def replay(data):
